@@ -21,18 +21,18 @@ def add(id, engine, category, technique, text, note, ref):
     CHECKS[id] = dict(engine=engine, category=category, technique=technique, text=text, note=note, ref=ref)
 
 add("C06", "syntax", "exploration", "property-based testing: generated abstract spokfile x generated layout, parse, compare with the generating structure (round trip from the model)",
-    "Every generated structure, rendered in a random (quick) or exhaustively enumerated (thorough, small structures) admissible layout, parses back to exactly that structure; shrunk counter-example on failure. Sampling beyond the enumerated layouts. Identifiers draw letters by UTF-8 lead byte and by block over the whole Basic Multilingual Plane. Binary leg: generated files (also with lines around 64 KiB, bytes that are not UTF-8, odd project directory names) are given to the real CLI; what `spok --fmt` writes back must equal the rendering of the tree the parser builds from the same text in-process.",
+    "Every generated structure, rendered in a random (quick) or exhaustively enumerated (thorough, small structures) admissible layout, parses back to exactly that structure; shrunk counter-example on failure. Sampling beyond the enumerated layouts. Identifiers draw letters by UTF-8 lead byte and by block over the whole Basic Multilingual Plane. Names that are reserved words of Go, the shell, JSON or spok's own flag set are names like any other (every identifier position, enumerated). Binary leg: generated files (also with lines around 64 KiB, bytes that are not UTF-8, odd project directory names) are given to the real CLI; what `spok --fmt` writes back must equal the rendering of the tree the parser builds from the same text in-process.",
     "Trusts the harness's renderer to emit only layouts the documentation admits (derived from the lexer's transitions and the user guide) and the projection ast->model.", "DESIGN.md §4 C06")
 add("C07", "syntax", "exploration", "bounded-exhaustive enumeration + property-based testing + coverage-guided fuzzing with a round-trip / semantic-projection oracle",
-    "All strings over the 25-symbol class alphabet up to length 5 (quick) / 6 (thorough) are enumerated completely; beyond that generated programs, permissive-grammar inputs and (thorough) native fuzzing. For each parsing input the formatted text must parse to the same semantic projection. Also: statements sharing a line, identifiers in every position x shape x about 900 letters of all scripts, stray non-UTF-8 bytes. Binary leg: generated spokfiles formatted in place by `spok --fmt` in the sandbox (from the project, from elsewhere with --spokfile, pointed at a file called Spokfile next to a different spokfile) and judged by the same projection; nothing but the target file may change; histories (format, format, append a variable and a task, format) and every line length around 64 KiB in tight and formatted spelling; a file that does not parse must be refused byte for byte; a read-only spokfile; a standard output nobody reads.",
+    "All strings over the 25-symbol class alphabet up to length 5 (quick) / 6 (thorough) are enumerated completely; beyond that generated programs, permissive-grammar inputs and (thorough) native fuzzing. For each parsing input the formatted text must parse to the same semantic projection. Also: statements sharing a line, identifiers in every position x shape x about 900 letters of all scripts, stray non-UTF-8 bytes. Binary leg: generated spokfiles formatted in place by `spok --fmt` in the sandbox (from the project, from elsewhere with --spokfile, pointed at a file called Spokfile next to a different spokfile) and judged by the same projection; nothing but the target file may change; histories (format, format, append a variable and a task, format) and every line length around 64 KiB in tight and formatted spelling; a file that does not parse must be refused byte for byte; a spokfile that is a symbolic link; task names given along with --fmt (a task that replaces the spokfile: never the old definitions over the new file); files of 1 MiB +- 64 bytes, 2 MiB and 5 MiB; a read-only spokfile; a standard output nobody reads.",
     "Semantic projection (variables, values, tasks, dependencies, outputs, commands; commands up to trailing blanks) is the harness's reading of 'what a spokfile does'.", "DESIGN.md §4 C07")
 add("C08", "syntax", "exploration", "bounded-exhaustive enumeration + property-based testing (prefix truncation, biased bytes) + fuzzing; crash/stall attribution through a shared-memory progress area",
     "Every class-alphabet string up to the bound, every byte prefix of generated programs, biased byte strings, permissive-grammar inputs with stray tokens, `%` strings, multi-line strings and lines of about 64 KiB: parsed twice in watchdogged worker processes; no crash, no stall, equal results, located error text.",
-    "A stall is declared after 10 s without progress (normal latency ~10 us) and confirmed by a solo replay; error location format is read tolerantly ('(Line N)' and the message ending in '| <line N>').", "DESIGN.md §4 C08")
+    "A stall is declared when the worker has used 30 s of CPU time on one case, or after 120 s of silence (normal latency ~10 us; wall-clock time alone is not trusted on a busy machine), and confirmed by a solo replay; error location format is read tolerantly ('(Line N)' and the message ending in '| <line N>').", "DESIGN.md §4 C08")
 add("C11", "syntax", "exploration", "bounded-exhaustive enumeration + property-based testing with an idempotence oracle",
     "format(format(x)) == format(x) byte for byte on every parsing input of the C07 spaces.", "Inputs whose formatted text does not parse are C07's violation and are counted as blocked here.", "DESIGN.md §4 C11")
 add("C15", "syntax", "exploration", "bounded-exhaustive enumeration + property-based testing with a comment/docstring projection oracle",
-    "The sequence of non-empty comments, assignments and tasks-with-docstring is identical before and after formatting on every parsing input of the C07 spaces (generator weighted towards comments in every position). A second leg judges against the comments a generated file was *written* with (including bytes that are not UTF-8) rather than against what the parser made of the input.",
+    "The sequence of non-empty comments, assignments and tasks-with-docstring is identical before and after formatting on every parsing input of the C07 spaces (generator weighted towards comments in every position). A second leg judges against the comments a generated file was *written* with (including bytes that are not UTF-8) rather than against what the parser made of the input. Binary leg: after `spok --fmt`, `spok --show` describes every task with the docstring the file gives it.",
     "Empty comments may vanish (the statement protects non-empty ones) as long as no neighbour changes role.", "DESIGN.md §4 C15")
 add("C16", "syntax", "exploration", "bounded-exhaustive enumeration + property-based testing with a tiling invariant over the token stream",
     "Token values are input slices at their offsets, increasing and non-overlapping with whitespace-only gaps, exact line numbers, finite stream, EOF at len(input) — on every class-alphabet string up to the bound and on generated programs / soup.",
@@ -40,7 +40,7 @@ add("C16", "syntax", "exploration", "bounded-exhaustive enumeration + property-b
 
 CACHE_NOTE = "The recording shell.Runner is the ground truth of execution; every run step is a fresh parse + file.New + SpokFile.Run (what a new process does); the reference model is a map task -> dependency snapshot at last observed success."
 add("C01", "runinproc", "exploration", "stateful property-based testing against a reference model (history generation + shrinking) plus bounded-exhaustive action sequences",
-    "Random histories (1-3 task programs mixing literal, glob and task dependencies; edits, reverts, deletes, multi-task / failing / forced runs, cache removal; dependencies that are symbolic links, dangling links among glob matches, directories reachable only through a link, project directories with glob / format meta characters in their names) and every action sequence up to length 4 (quick) / 6 (thorough) over three fixed two-task programs: no task is ever reported skipped unless its dependency snapshot equals the one of its last observed success. Plus scenario templates (establish / perturb / special run / restore / run twice; matched sets that empty, shrink, grow or are swapped after forced and unforced successes) the same histories pinned to two CPUs and to one (taskset), started from varying working directories, with leftovers of other processes in the cache directory, a file named like a task, bracket names beside look-alikes, the project reached through a link to its directory, the first task started as the user's clean task; and a binary leg (incremental runs through the CLI, also with a linked spokfile, from elsewhere with --spokfile, and with edits of same-named files outside the project).",
+    "Random histories (1-3 task programs mixing literal, glob and task dependencies; edits, reverts, deletes, multi-task / failing / forced runs, cache removal; dependencies that are symbolic links, dangling links among glob matches, directories reachable only through a link, project directories with glob / format meta characters in their names) and every action sequence up to length 4 (quick) / 6 (thorough) over three fixed two-task programs: no task is ever reported skipped unless its dependency snapshot equals the one of its last observed success. Plus scenario templates (establish / perturb / special run / restore / run twice; matched sets that empty, shrink, grow or are swapped after forced and unforced successes) the same histories pinned to two CPUs and to one (taskset), started from varying working directories, with leftovers of other processes in the cache directory, two names exchanging what they refer to (two regular files; two linked dependencies, which thereby exchange targets), a file named like a task, bracket names beside look-alikes, the project reached through a link to its directory, the first task started as the user's clean task; and a binary leg (incremental runs through the CLI, also with a linked spokfile, from elsewhere with --spokfile, and with edits of same-named files outside the project).",
     CACHE_NOTE, "DESIGN.md §4 C01")
 add("C02", "runinproc", "exploration", "stateful property-based testing against a reference model (converse predicate of C01) plus bounded-exhaustive action sequences",
     "Same histories: an executed task in an unforced run never has inputs equal to its last success (unless tainted by a later failure or cache removal); tasks without file dependencies are never skipped.",
@@ -49,41 +49,41 @@ add("C14", "runinproc", "exploration", "stateful property-based testing against 
     "Same histories with --force drawn with probability 1/2: forced runs report and execute every requested task, never skip; later unforced skips of tasks whose last success was forced satisfy the C01 condition. Binary leg: after a priming run, `spok --force <name>`, `spok --force` (default task) and `spok --clean --force` (user clean task) re-execute every task of the closure; in.txt is optionally edited before and put back after the forced run, the cache optionally read-only while it lasts, and a final unforced run may only skip a task on the inputs it last completed on.",
     CACHE_NOTE + " Completeness of the transitive closure is C03's business and not re-judged here.", "DESIGN.md §4 C14")
 add("C03", "runinproc", "exploration", "bounded-exhaustive enumeration of dependency graphs x requests plus property-based sampling, validity-predicate oracle from reachability + DFS",
-    "Every edge set (incl. self-loops) on up to 3 (quick) / 4 (thorough) tasks x every request subset and extra orderings, repeated so that map iteration inside the sort varies; sampled graphs on 4-8 tasks with duplicates, undefined names, failing commands, file dependencies. Binary leg: graphs run through the CLI with the first task selected by name, as default task or as clean task, or with several names (repeats, an undefined name at any position) on the command line; graphs of 21-36 tasks whose names sort against the run order, one loaded SpokFile run repeatedly; tasks may have glob dependencies and write files their dependents depend on, and the judged run may come after a history of runs and file changes.",
+    "Every edge set (incl. self-loops) on up to 3 (quick) / 4 (thorough) tasks x every request subset and extra orderings, repeated so that map iteration inside the sort varies; sampled graphs on 4-8 tasks with duplicates, undefined names, failing commands, file dependencies. Binary leg: graphs run through the CLI with the first task selected by name, as default task or as clean task, or with several names (repeats, an undefined name at any position) on the command line; graphs of 21-36 tasks whose names sort against the run order, one loaded SpokFile run repeatedly; tasks may have glob dependencies and write files their dependents depend on, and the judged run may come after a history of runs and file changes; a bystander task with a recursive glob next to a link to itself, a link to nowhere and a named pipe; every spelling of a requested name that names no task (empty, blank, other letter case, prefix, trailing blank, ...) at every position.",
     "Reference: reachability and DFS cycle test over the declared edges. Cycles unreachable from the request are a don't-care (error or normal run).", "DESIGN.md §4 C03")
 add("C05", "runinproc", "exploration", "bounded-exhaustive enumeration of directory trees x patterns against a reference matcher over a full walk (differential), plus property-based random trees",
     "Every subset of a 10 (quick) / 12 (thorough) path pool x 22 patterns, expanded through parse -> file.New -> Run -> SpokFile.Globs twice (pattern tasks requested directly and reached through two levels of task dependencies); compared as sets of regular files with an independent matcher. Trees with symbolic links to files and to directories (every subset of five link positions x three base trees, and random ones); a third leg edits one matched file and requires exactly the tasks whose pattern denotes it to run again; a fourth adds and removes a file deep in the tree between invocations. Binary legs: `spok --clean` with glob-only outputs removes exactly the denoted files; incremental runs through the CLI (linked spokfile whose target lives elsewhere, --spokfile from another directory, same-named files edited outside the project).",
     "The reference matcher is cross-checked against doublestar.Match on the pattern set. Links always lead to existing files / directories outside the tree (no cycles); a link to a directory counts as a directory, as for any path-based reader.", "DESIGN.md §4 C05")
 
 add("C04", "hashing", "exploration", "property-based testing with metamorphic relations (permutation, directory interleaving, GOMAXPROCS, CPU affinity) and a run-wide injectivity book, also under the race detector",
-    "Generated file sets over an adversarial 48-name universe with edit scripts: every reordering / interleaving / GOMAXPROCS / repetition agrees, and digest <-> canonical set of (abs path, content) stays a bijection over the whole run; child processes pinned to 1, 2, 4, 16 CPUs agree. Binary leg: the digest spok records in .spok/cache.json from a fresh cache is the same under six ways of pointing spok at the project (cwd, nested cwd, relative / absolute --spokfile from the project, its parent, a sibling directory), changes when a dependency is edited, not when another file is, and returns when the edit is undone.",
+    "Generated file sets over an adversarial 48-name universe with edit scripts: every reordering / interleaving / GOMAXPROCS / repetition agrees, and digest <-> canonical set of (abs path, content) stays a bijection over the whole run; child processes pinned to 1, 2, 4, 16 CPUs agree; names that are not valid UTF-8 (Latin-1, lone 0xFF / 0xFE) and the NFC / NFD spellings of one visible name are names like any other. Binary leg: the digest spok records in .spok/cache.json from a fresh cache is the same under six ways of pointing spok at the project (cwd, nested cwd, relative / absolute --spokfile from the project, its parent, a sibling directory), changes when a dependency is edited, not when another file is, and returns when the edit is undone; also with the spokfile reached through a symbolic link from the project into a directory that holds files of the same names.",
     "No digest format is assumed (relational oracles only). Worker interleavings are sampled, not enumerated. Lists with duplicate entries are only checked for determinism (don't-care otherwise).", "DESIGN.md §4 C04")
-add("C18", "hashing", "fault_enumeration", "fault injection by construction (missing, dangling, unreadable, vanishing entries at every position) + property-based list generation, race detector, goroutine accounting, crash/stall attribution to the list in flight",
-    "Every position of every faulty kind in every list of size <= 6 for GOMAXPROCS in {1,2,4,16}, repeated, also under -race; generated lists of size 0..4*NumCPU and 10^4 with duplicates: Hash returns (digest, nil) or (\"\", err), errors exactly when an entry cannot be opened, no crash, stall, race or leaked goroutine; the position enumeration is repeated pinned to one and to two CPUs (taskset); four concurrent calls on one shared, unsorted list must agree with a single call (a race-detector report counts as a violation). Binary leg: a task with dependencies of every kind (also /dev/null and a linked directory) through the CLI: a message and a non-zero exit, never a crash — also when the dependencies were readable for two earlier runs, or when an earlier task of the same run moves one away.",
-    "A crash or 20 s stall of the shard process is attributed to the list published in the shared-memory progress area and confirmed by a solo replay. Vanishing files may yield either outcome.", "DESIGN.md §4 C18")
+add("C18", "hashing", "fault_enumeration", "fault injection by construction (missing, dangling, unreadable, vanishing, shrinking entries at every position) + property-based list generation, race detector, goroutine accounting, crash/stall attribution to the list in flight",
+    "Every position of every faulty kind in every list of size <= 6 for GOMAXPROCS in {1,2,4,16}, repeated, also under -race; generated lists of size 0..4*NumCPU and 10^4 with duplicates: Hash returns (digest, nil) or (\"\", err), errors exactly when an entry cannot be opened, no crash, stall, race or leaked goroutine; the position enumeration is repeated pinned to one and to two CPUs (taskset); four concurrent calls on one shared, unsorted list must agree with a single call (a race-detector report counts as a violation). Binary leg: a task with dependencies of every kind (also /dev/null and a linked directory) through the CLI: a message and a non-zero exit, never a crash — also with standard output and error as regular files, when the dependencies were readable for two earlier runs, or when an earlier task of the same run moves one away.",
+    "A crash or stall (60 s of CPU time on one list, or 240 s of silence) of the shard process is attributed to the list published in the shared-memory progress area and confirmed by a solo replay. Vanishing files and files cut to nothing in place while being read may yield either outcome.", "DESIGN.md §4 C18")
 
 SB_NOTE = "The built binary runs as uid 65534 inside a throw-away sandbox tree (needs root to chown/setuid; otherwise it runs as the invoking user). "
 add("C17", "cli", "exploration", "bounded-exhaustive enumeration of directory chains x start x stop against a reference walk (differential), stall detection by watchdog, plus a shard run as an unprivileged user over directory modes",
-    "Every chain of depth <= 3 (quick) / 4 (thorough) with 8 per-level configurations and two child-name orders x every start x every stop incl. an unrelated directory: file.Find terminates and returns the nearest regular spokfile not above stop, else an error. Long chains (16-100 levels), case variants, left-over cache directories; relative start directories (termination only); as uid 65534: chains of three directories x spokfile or not x mode 0755/0311/0 x start x stop, judged against the tree as built; `spok --show` from nested directories (also through symbolic links, with a stale $PWD).",
-    "Find is called in-process in watchdogged shards (10 s stall limit, confirmed by a solo replay). When start is not at/below stop either a not-found error or the nearest spokfile on start's own chain is accepted. Symlinks and path spelling variants are not generated.", "DESIGN.md §4 C17")
+    "Every chain of depth <= 3 (quick) / 4 (thorough) with 8 per-level configurations and two child-name orders x every start x every stop incl. an unrelated directory: file.Find terminates and returns the nearest regular spokfile not above stop, else an error. Long chains (16-100 levels), case variants, left-over cache directories; relative start directories (termination only); as uid 65534: chains of three directories x spokfile or not x mode 0755/0311/0 x start x stop, judged against the tree as built; `spok --show` from nested directories (also through symbolic links, with a stale $PWD), after which `--vars`, `--clean` and `-c` from the same directory must work on the same spokfile; directories on the way called `project [wip]`, `notes{a,b}`, `[ab]`, `a*b`, `q?z`, `100%d`, each with a look-alike sibling holding a spokfile.",
+    "Find is called in-process in watchdogged shards (stall = 30 s of CPU time on one case or 120 s of silence, confirmed by a solo replay). When start is not at/below stop either a not-found error or the nearest spokfile on start's own chain is accepted. Symlinks and path spelling variants are not generated.", "DESIGN.md §4 C17")
 add("C13", "cli", "exploration", "property-based testing of the binary with a textual-substitution oracle and environment collisions by construction",
-    "Generated variable sets (string / exec / join) with names colliding with ambient environment and .env, printed through {{.NAME}} and $NAME under --json, from the project root, nested directories, and started elsewhere with relative / absolute --spokfile; odd project directory names; the probing task optionally behind a task that is reported skipped, optionally with a command holding braces the template syntax rejects (refused, or substituted); an in-process leg loads 120 spokfiles in one process from three working directories with one that does not load in between; also --vars and failing exec.",
+    "Generated variable sets (string / exec / join) with names colliding with ambient environment and .env, printed through {{.NAME}} and $NAME under --json, from the project root, nested directories, and started elsewhere with relative / absolute --spokfile; odd project directory names; the probing task optionally behind a task that is reported skipped, optionally with a command holding braces the template syntax rejects (refused, or substituted); an in-process leg loads 120 spokfiles in one process from three working directories with one that does not load in between; also --vars and failing exec; --debug / --force on the judged run, values up to 200 characters; standard output and error as regular files.",
     SB_NOTE + "Values avoid both quote characters so that the probing commands stay valid shell; references to later-defined variables are out of scope.", "DESIGN.md §4 C13")
 add("C12", "cli", "exploration", "property-based testing of the binary with a whole-sandbox before/after snapshot (frame condition + protected set + completeness)",
-    "Random project trees x spokfiles declaring literal, named and glob outputs incl. ones that evaluate to '', '.', '..'; `spok --clean` must remove exactly the designated paths and .spok, never the spokfile, its directory or anything above; with a clean task only that task runs. Tasks may also read (file / glob dependencies) what other tasks declare as outputs; one of the patterns may be one the glob syntax rejects (refusing is accepted); standard output may be /dev/full (what is removed does not depend on being able to report it). Project directory names with meta characters and generated invocation styles (--spokfile ./spokfile, from the parent, from a sibling directory, relative and absolute).",
+    "Random project trees x spokfiles declaring literal, named and glob outputs incl. ones that evaluate to '', '.', '..'; `spok --clean` must remove exactly the designated paths and .spok, never the spokfile, its directory or anything above; with a clean task only that task runs. Tasks may also read (file / glob dependencies) what other tasks declare as outputs; one of the patterns may be one the glob syntax rejects (refusing is accepted); standard output may be /dev/full (what is removed does not depend on being able to report it). Names of defined tasks may be given along with --clean (before or after it). Standard output and error may be regular files. Project directory names with meta characters and generated invocation styles (--spokfile ./spokfile, from the parent, from a sibling directory, relative and absolute).",
     SB_NOTE + "When an output designates the project or above, aborting or skipping it are both accepted; outputs beside (not above) the project are not generated.", "DESIGN.md §4 C12")
 
 add("C09", "cli", "exploration", "property-based testing of the binary with a side-effect log as ground truth, followed by a second run (history of length two)",
-    "Generated spokfiles with failing commands at any position (statuses 1..255) under each of {plain, --quiet, --json, --force and combinations}: the invocation exits non-zero and names a failing task; the next unforced run never reports a failed task skipped, never succeeds, and re-executes a sole failing task. Variants: a primed (populated) cache, tasks started through the default / clean task, failures of external programs and by signal, a cache that is read-only during the failing run, a dependency that vanishes before it, tasks added to the spokfile after the cache was created, task names that differ by case only, command lines that are not valid shell behind a failing one.",
+    "Generated spokfiles with failing commands at any position (statuses 1..255) under each of {plain, --quiet, --json, --force and combinations}: the invocation exits non-zero and names a failing task; the next unforced run never reports a failed task skipped, never succeeds, and re-executes a sole failing task. Variants: a primed (populated) cache, tasks started through the default / clean task, failures of external programs and by signal, a cache that is read-only during the failing run, a dependency that vanishes before it, tasks added to the spokfile after the cache was created, task names that differ by case only, command lines that are not valid shell behind a failing one, standard output and error as regular files (`spok build >out.log 2>err.log`).",
     SB_NOTE + "Whether later commands/tasks still run after a failure is a don't-care; which of several failing tasks is named is free.", "DESIGN.md §4 C09")
 add("C10", "cli", "fault_enumeration", "fault injection by construction: SIGKILL from inside every task position, at every file-system system call (strace inject), every byte prefix of the cache file, inside model-based histories checked against a reference cache model",
-    "Histories over the C01 universe with kill -9 of spok (a) from inside any task of the run order, (b) on entering its N-th openat/write/rename/close/fsync/mkdir/unlink system call for every N (strace fault injection: every crash point between two file-system operations), and (c) truncation of cache.json to prefixes (all byte lengths for two fixed programs in the thorough tier, every 7th in quick), each followed by continuations of edits/reverts and an unforced run: no wrongly skipped task ever, and after a fault either normal behaviour or an explicit error that mentions the cache (never a Go panic). The killed / failing run is also started from another directory (which has a spokfile and cache of its own) with --spokfile, and with the cache file or cache directory read-only for its duration.",
+    "Histories over the C01 universe with kill -9 of spok (a) from inside any task of the run order, (b) on entering its N-th openat/write/rename/close/fsync/mkdir/unlink system call for every N (strace fault injection: every crash point between two file-system operations), and (c) truncation of cache.json to prefixes (all byte lengths for two fixed programs in the thorough tier, every 7th in quick), each followed by continuations of edits/reverts and an unforced run: no wrongly skipped task ever, and after a fault either normal behaviour or an explicit error that mentions the cache (never a Go panic). The killed / failing run is also started from another directory (which has a spokfile and cache of its own) with --spokfile, and with the cache file or cache directory read-only for its duration; any run of a history may ask for --json / --quiet / -j, and every cut of the cache file is also followed by such a run.",
     SB_NOTE + "Process death only (no power loss / reordering of unsynced writes). Crash points are system-call entries, task positions and cache-file prefixes, not every machine instruction. Needs strace for (b); without it that leg is skipped and noted in the evidence.", "DESIGN.md §4 C10 and §10")
 add("C19", "cli", "exploration", "property-based testing of the binary with a whole-HOME before/after snapshot against the write-set each action permits",
-    "Random trees x valid/invalid/absent spokfiles x every flag subset of {--show,--vars,--fmt,--init,--force,--quiet,--json,--debug} and task names, from root and nested cwd: every created/modified/removed path lies in the permitted set, --fmt output equals the in-process formatter, --init never overwrites and only appends to .gitignore. Also: spokfile as a symbolic link into another directory, --spokfile from elsewhere, --spokfile naming a file called Spokfile (must be refused without writing), editor-style bystander files, earlier invocations of the same kind with an edit of a matched dependency in between (declared outputs present throughout), `--init` combined with `--spokfile`, read-only .gitignore files, odd project directory names, `--init` in a directory that cannot be listed.",
+    "Random trees x valid/invalid/absent spokfiles x every flag subset of {--show,--vars,--fmt,--init,--force,--quiet,--json,--debug} and task names, from root and nested cwd: every created/modified/removed path lies in the permitted set, --fmt output equals the in-process formatter, --init never overwrites and only appends to .gitignore. Also: spokfile as a symbolic link into another directory, --spokfile from elsewhere, --spokfile naming a file called Spokfile (must be refused without writing), editor-style bystander files, earlier invocations of the same kind with an edit of a matched dependency in between (declared outputs present throughout), `--init` combined with `--spokfile`, read-only .gitignore files, odd project directory names, `--init` in a directory that cannot be listed; commands with bash-only tests (`[[ a > b ]]`, `$(( 4 > 3 ))`); tasks called like flags and actions (`init`, `fmt`, `clean`, `show`, ...) asked for by name from the project and from below it.",
     SB_NOTE + "Task commands are restricted to side-effect-free ones so that every change is spok's own.", "DESIGN.md §4 C19")
 add("C20", "cli", "exploration", "property-based testing of the binary: reports compared with a side-effect log and a skip model over action sequences",
-    "Generated spokfiles and action sequences: --json is exactly one document with the run's tasks in execution order, skipped flags, interpolated command text, exact stdout/stderr/status; --quiet prints nothing; --show / --vars list every task / variable once, sorted, with docstring / value; no arguments runs default or lists. With and without a .env file, started in the project, in a sub-directory (also one holding a directory called spokfile), or elsewhere with --spokfile; variables that are also named outputs; names exactly one or two tab stops long; a reported run with a read-only cache; two join() calls whose argument lists print alike.",
+    "Generated spokfiles and action sequences: --json is exactly one document with the run's tasks in execution order, skipped flags, interpolated command text, exact stdout/stderr/status; --quiet prints nothing; --show / --vars list every task / variable once, sorted, with docstring / value; no arguments runs default or lists. With and without a .env file, started in the project, in a sub-directory (also one holding a directory called spokfile), or elsewhere with --spokfile; variables that are also named outputs; names exactly one or two tab stops long; a reported run with a read-only cache; two join() calls whose argument lists print alike; values that mean something to HTML, URLs or the shell (`fish & chips`, `<in >out`, `1.2+dev`, `$HOME`); standard output and error as regular files.",
     SB_NOTE + "--quiet together with --json/--show is a don't-care; ANSI styling is stripped; table cells are compared after whitespace normalisation.", "DESIGN.md §4 C20")
 
 NOT_YET = {}
